@@ -92,13 +92,19 @@ pub fn fd_check_abs(out: &mut Out, ff: &mut FF, terms: &[TermDesc], x: &[Point],
 }
 
 pub fn fd_check(out: &mut Out, ff: &mut FF, terms: &[TermDesc], x: &[Point], label: &str, replay: &str, worst: &mut f64) -> bool {
+    let all: Vec<usize> = (0..x.len()).collect();
+    fd_check_atoms(out, ff, terms, x, &all, label, replay, worst)
+}
+
+/// the finite-difference comparison restricted to the coordinates of the listed atoms (large systems)
+pub fn fd_check_atoms(out: &mut Out, ff: &mut FF, terms: &[TermDesc], x: &[Point], atoms: &[usize], label: &str, replay: &str, worst: &mut f64) -> bool {
     let g = ff.gradient(x);
     if !g.iter().all(|v| v.is_finite()) { return false; }
     let gmax = g.iter().fold(0.0f64, |m, v| m.max(v.abs())).max(1e-2);
     let escale: f64 = terms.iter().map(|t| make_term(t).energy(x).abs()).sum::<f64>().max(1.0);
     let h = 2e-4;
     let tol = 1e-6 * gmax + 1e-14 * escale / h;
-    for a in 0..x.len() {
+    for &a in atoms.iter() {
         for c in 0..3 {
             let mut d = |hh: f64| {
                 let mut p = x.to_vec();
@@ -198,7 +204,9 @@ pub fn run(out: &mut Out, seed: u64, tier: &str) {
     // grazing geometries: linear molecules with their end atoms a few 1e-5 A off the axis (what another program's five
     // decimals leave of an exactly linear structure): the bends are within 1e-4 rad of 180 degrees, not exactly on it
     let mut n_graze = 0usize;
-    for zs in [vec![1usize, 6, 6, 1], vec![1, 6, 7], vec![8, 6, 8], vec![16, 6, 16], vec![9, 4, 9], vec![17, 80, 17], vec![1, 6, 6, 6, 6, 1]] {
+    for zs in [vec![1usize, 6, 6, 1], vec![1, 6, 7], vec![8, 6, 8], vec![16, 6, 16], vec![9, 4, 9], vec![17, 80, 17], vec![1, 6, 6, 6, 6, 1],
+               // centres that are bent by nature (cosine-harmonic bends) drawn straight: water, a siloxane bridge, H2S, an ether, a peroxide
+               vec![1, 8, 1], vec![14, 8, 14], vec![1, 16, 1], vec![6, 8, 6], vec![1, 8, 8, 1]] {
         for rep in 0..(if tier == "thorough" { 12 } else { 3 }) {
             let mut g = linear_chain(&zs, 1.0);
             for p in g.xs.iter_mut() { p[1] += rng.range(-1.0, 1.0) * 10f64.powf(rng.range(-5.5, -3.8)); p[2] += rng.range(-1.0, 1.0) * 10f64.powf(rng.range(-5.5, -3.8)); }
@@ -213,6 +221,49 @@ pub fn run(out: &mut Out, seed: u64, tier: &str) {
             if fd_check_abs(out, &mut ff, &terms, &x, "uff grazing", &replay, &mut worst) { n_fd += 1; n_graze += 1; }
         }
     }
+    // large systems (180-600 atoms; a code path chosen by size is chosen here): a long alkane, a noble-gas lattice around a
+    // molecule, a chain of waters. Too large for the term-by-term model line, so two oracles only: the force field's gradient is the
+    // sum of its terms' gradients, and it is the finite difference of the force field's energy (all atoms up to 200, else a sample
+    // that always includes the last atoms)
+    let mut n_large = 0usize;
+    let mut larges: Vec<Mol> = vec![];
+    for (k, n_c) in [60usize, 61, 75].iter().enumerate() { if tier == "thorough" || k == 0 { larges.push(distort(&alkane(*n_c), 0.02, &mut rng)); } }
+    for (k, side) in [6usize, 7, 8].iter().enumerate() {
+        if tier != "thorough" && k != 1 { continue; }
+        let mut m = library()[0].clone();
+        for p in m.xs.iter_mut() { p[0] -= 3.1; p[1] -= 2.9; p[2] -= 3.3; }
+        for a in 0..*side { for b in 0..*side { for c in 0..*side { m.zs.push(*rng.pick(&[2usize, 10, 18])); m.xs.push([a as f64 * 3.7 + rng.range(-0.2, 0.2), b as f64 * 3.7 + rng.range(-0.2, 0.2), c as f64 * 3.7 + rng.range(-0.2, 0.2)]); } } }
+        m.name = format!("water-in-lattice-{}", side);
+        larges.push(m);
+    }
+    for m in larges.iter() {
+        if m.min_distance() < 0.6 { continue; }
+        let mol = match catch(|| m.build()) { Some(x) => x, None => continue };
+        for kind in ["uff", "rb"] {
+            let mut ff = match FF::build(kind, &mol) { Some(f) => f, None => continue };
+            let terms = ff.terms();
+            let x = m.points();
+            let e = ff.energy(&x);
+            if !(e.is_finite() && e.abs() < 1e7) { continue; }
+            let g = ff.gradient(&x);
+            let mut acc: Vec<Vector3D> = (0..x.len()).map(|_| Vector3D { x: 0.0, y: 0.0, z: 0.0 }).collect();
+            let mut esum = 0.0f64;
+            for t in terms.iter() { let term = make_term(t); term.add_gradient(&x, &mut acc); esum += term.energy(&x); }
+            let gs = flat(&acc);
+            let gmax = g.iter().fold(0.0f64, |mx, v| mx.max(v.abs())).max(1e-2);
+            let replay = format!("{} forcefield on a {}-atom system ({} terms)
+{}", kind, m.n(), terms.len(), m.xyz_text());
+            if let Some(s) = (0..g.len()).find(|s| !((g[*s] - gs[*s]).abs() <= 1e-9 * gmax)) {
+                out.oracle_fail(&format!("{} large system: gradient of atom {} axis {} is {} but its terms' gradients sum to {}", kind, s / 3, s % 3, g[s], gs[s]), &replay);
+            }
+            if !((e - esum).abs() <= 1e-9 * e.abs().max(1.0)) { out.oracle_fail(&format!("{} large system: energy {} but its terms' energies sum to {}", kind, e, esum), &replay); }
+            let atoms: Vec<usize> = if m.n() <= 200 { (0..m.n()).collect() } else { let mut v: Vec<usize> = (0..m.n()).step_by(9).collect(); for a in m.n() - 6..m.n() { if !v.contains(&a) { v.push(a); } } v };
+            if kind == "rb" || well_conditioned(&terms, &x) {
+                if fd_check_atoms(out, &mut ff, &terms, &x, &atoms, &format!("{} large system", kind), &replay, &mut worst) { n_fd += 1; n_large += 1; }
+            }
+        }
+    }
+    out.stat("large_systems_fd_checked", n_large);
     // van der Waals pairs on their own: two unbonded atoms of every element (quick: same-element pairs and a sample of mixed ones;
     // thorough: also every pair with one of ten partners) just beyond the bonding threshold and further out — the only force in the
     // system is the pair's, so a pair term whose force is lost or scaled shows at full size whatever its well depth
